@@ -157,7 +157,14 @@ def _attach_parent_to_exprs(obj: Class | Function | Attribute, parent: Module | 
 
 
 def _load_module(obj_dict: dict[str, Any]) -> Module:
-    module = Module(name=obj_dict["name"], filepath=Path(obj_dict["filepath"]), docstring=_load_docstring(obj_dict))
+    filepath = obj_dict["filepath"]
+    if isinstance(filepath, list):
+        # Namespace packages have a list of directories.
+        filepath = [Path(path) for path in filepath]
+    elif filepath is not None:
+        # Builtin modules have no file path.
+        filepath = Path(filepath)
+    module = Module(name=obj_dict["name"], filepath=filepath, docstring=_load_docstring(obj_dict))
     # YORE: Bump 2: Replace line with `members = obj_dict.get("members", {}).values()`.
     members = obj_dict.get("members", [])
     # YORE: Bump 2: Remove block.
